@@ -1,0 +1,91 @@
+//go:build verif
+
+// Contracts for package metadata, checked by /verif/gvc (comment-only file,
+// compiled only under the build tag "verif").
+package metadata
+
+// The three value maps are only touched under mu.
+//@ monitor Metadata.mu protects valuesInt, valuesBool, valuesStr invariant MetaInv
+//@ pred MetaInv(m *Metadata) := m.valuesInt != nil && m.valuesBool != nil && m.valuesStr != nil
+
+// intAdded[m][name]: sum of the deltas that AddInt calls of THIS thread have
+// applied to counter name of m (ghost history; the stored value itself is
+// shared state under the monitor).
+//@ ghost intAdded gmap[ref]gmap[string]int
+
+// The registries are package-level maps filled at init time; registered(name)
+// is what validInt tests.
+//@ pred RegisteredInt(name string) := TargetIntValues[name] != nil && has(TargetIntValues, name)
+
+//@ func validInt
+//@   props C15 C12
+//@   ensures res0 == nil <==> RegisteredInt(value)
+//@ func validBool
+//@   props C15 C12
+//@   ensures res0 == nil <==> (has(TargetBoolValues, value) && TargetBoolValues[value])
+//@ func validStr
+//@   props C15 C12
+//@   ensures res0 == nil <==> (has(TargetStrValues, value) && TargetStrValues[value] != nil)
+
+// AddInt adds i to the stored counter (relative to the value found when the
+// lock was taken) iff the name is registered.
+//@ func (*Metadata).AddInt
+//@   props C15 C12
+//@   arith wrap
+//@   locks m
+//@   requires m != nil
+//@   effect intAdded := ite(RegisteredInt(value), upd(intAdded, m, upd(intAdded[m], value, intAdded[m][value] + i)), intAdded)
+//@   ensures res0 == nil <==> RegisteredInt(value)
+//@   ensures RegisteredInt(value) ==> m.valuesInt[value] == wrap64s(old(m.valuesInt[value]) + i) && has(m.valuesInt, value)
+//@   ensures forall k string :: k != value || !RegisteredInt(value) ==> (has(m.valuesInt, k) <==> old(has(m.valuesInt, k))) && m.valuesInt[k] == old(m.valuesInt[k])
+
+//@ func (*Metadata).SetInt
+//@   props C15 C12
+//@   locks m
+//@   requires m != nil
+//@   ensures res0 == nil <==> RegisteredInt(value)
+//@   ensures RegisteredInt(value) ==> m.valuesInt[value] == v && has(m.valuesInt, value)
+
+//@ func (*Metadata).SetBool
+//@   props C15 C12
+//@   locks m
+//@   requires m != nil
+//@   ensures res0 == nil ==> m.valuesBool[value] == v && has(m.valuesBool, value)
+
+//@ func (*Metadata).SetStr
+//@   props C15 C12
+//@   locks m
+//@   requires m != nil
+//@   ensures res0 == nil ==> m.valuesStr[value] == v && has(m.valuesStr, value)
+
+//@ func (*Metadata).GetInt
+//@   props C15 C12
+//@   locks m
+//@   requires m != nil
+//@   ensures res1 == nil ==> res0 == m.valuesInt[value] && has(m.valuesInt, value)
+
+//@ func (*Metadata).GetBool
+//@   props C15 C12
+//@   locks m
+//@   requires m != nil
+//@   ensures res1 == nil ==> res0 == m.valuesBool[value] && has(m.valuesBool, value)
+
+//@ func (*Metadata).GetStr
+//@   props C15 C12
+//@   locks m
+//@   requires m != nil
+//@   ensures res1 == nil ==> res0 == m.valuesStr[value] && has(m.valuesStr, value)
+
+// Path only reads the registries.
+//@ func Path
+//@   props C15 C12
+
+// ResetEntry / Clear only touch the three protected maps (and read the registries).
+//@ func (*Metadata).ResetEntry
+//@   props C15 C14 C12
+//@   locks m
+//@   requires m != nil
+//@ func (*Metadata).Clear
+//@   props C15 C14 C12
+//@   locks m
+//@   requires m != nil
